@@ -149,3 +149,225 @@ CONTRACTS["model:Population.build#parameter_limits"] = dict(
         ("C06.a_function_cell_is_installed_exactly_when_present", "len(FCN_SET) == (0 if NO_FUNCTION else 1)"),
     ],
     defined_props=["C06"])
+
+
+# ---- Link.create (C01): a new link is registered with BOTH of its ends, with its parameter and with the population, exactly once --
+# stocks are stepped from compartment.inlinks / outlinks, so a link missing on one side would lose or duplicate people.
+def _env_link_create(cls, with_par):
+    def make(it):
+        from pyvc.interp import PyObjV, ClassV
+        from pyvc import source
+
+        mm = source.load("model")
+        pop = PyObjV("Population", mm, {"name": "pop", "links": [], "link_lookup": {}})
+        par = PyObjV("Parameter", mm, {"id": ("pop", "p"), "links": []}) if with_par else None
+        src = PyObjV("Compartment", mm, {"id": ("pop", "s"), "outlinks": [], "inlinks": []})
+        dst = PyObjV("Compartment", mm, {"id": ("pop", "d"), "outlinks": [], "inlinks": []})
+        return {"cls": ClassV(cls, mm), "pop": pop, "parameter": par, "source": src, "dest": dst}
+
+    return make
+
+
+for _cls in ("Link", "TimedLink"):
+    for _with_par in (True, False):
+        CONTRACTS["model:Link.create#%s_%s" % (_cls, "with_parameter" if _with_par else "without_parameter")] = dict(
+            schema=schema, make_env=_env_link_create(_cls, _with_par), class_module="model", concrete_new=["Link", "TimedLink"],
+            call_stubs={"sc.uuid": (lambda it, *a, **k: "uuid")},
+            ensures=[
+                ("C01.the_link_is_of_the_requested_class_and_joins_the_two_compartments", "type(result).__name__ == %r and result.source is source and result.dest is dest and result.parameter is parameter" % _cls),
+                ("C01.registered_once_as_outflow_of_its_source_and_inflow_of_its_destination",
+                 "len(source.outlinks) == 1 and source.outlinks[0] is result and len(dest.inlinks) == 1 and dest.inlinks[0] is result and len(source.inlinks) == 0 and len(dest.outlinks) == 0"),
+                ("C01.registered_once_with_the_population", "len(pop.links) == 1 and pop.links[0] is result and len(pop.link_lookup[result.id[-1]]) == 1 and pop.link_lookup[result.id[-1]][0] is result"),
+            ] + ([("C01+C03.registered_once_with_its_parameter", "len(parameter.links) == 1 and parameter.links[0] is result")] if _with_par else []),
+            defined_props=["C01", "C03"])
+
+
+def _replay_link_create(cls, with_par):
+    def replay(model, contract):
+        """replay on REAL objects: a bare Population, two real Compartments, a real Parameter; the real classmethod runs"""
+        import atomica.model as am
+
+        pop = object.__new__(am.Population)
+        pop.name, pop.links, pop.link_lookup = "pop", [], {}
+        src, dst = am.Compartment(pop, "s"), am.Compartment(pop, "d")
+        par = am.Parameter(pop, "p") if with_par else None
+        link = getattr(am, cls).create(pop, par, src, dst)
+        bad = []
+        if type(link).__name__ != cls or link.source is not src or link.dest is not dst or link.parameter is not par:
+            bad.append("the link does not join the two compartments as asked")
+        if [l for l in src.outlinks] != [link] or [l for l in dst.inlinks] != [link] or src.inlinks or dst.outlinks:
+            bad.append("source.outlinks=%r dest.inlinks=%r source.inlinks=%r dest.outlinks=%r" % (len(src.outlinks), len(dst.inlinks), len(src.inlinks), len(dst.outlinks)))
+        if pop.links != [link] or pop.link_lookup.get(link.name) != [link]:
+            bad.append("the population registers the link %d times (lookup %r)" % (len(pop.links), {k: len(v) for k, v in pop.link_lookup.items()}))
+        if with_par and par.links != [link]:
+            bad.append("the parameter registers the link %d times" % len(par.links))
+        return dict(verdict="violates" if bad else "holds", detail="; ".join(bad) or "registered once with both ends, the parameter and the population", prestate=dict(link_class=cls, with_parameter=with_par))
+
+    return replay
+
+
+for _cls in ("Link", "TimedLink"):
+    for _with_par in (True, False):
+        CONTRACTS["model:Link.create#%s_%s" % (_cls, "with_parameter" if _with_par else "without_parameter")]["replay_hook"] = _replay_link_create(_cls, _with_par)
+
+
+# ---- connect (C05): "moves between compartments of the same duration group keep the elapsed time, moves to any other compartment
+# restart it" -- decided when the links are created: a TimedLink (row-preserving) exactly when both ends are in the same duration
+# group, a plain Link otherwise; the timed parameter's own link becomes the flush link and is detached from the parameter.
+_DESTS = {
+    "timed_same_group": ("TimedCompartment", {"parameter": "dur"}, True),
+    "timed_other_group": ("TimedCompartment", {"parameter": "other"}, False),
+    "junction_same_group": ("JunctionCompartment", {"duration_group": "dur"}, True),
+    "junction_other_group": ("JunctionCompartment", {"duration_group": "other"}, False),
+    "junction_no_group": ("JunctionCompartment", {"duration_group": None}, False),
+    "plain": ("Compartment", {}, False),
+    "sink": ("SinkCompartment", {}, False),
+}
+
+
+def _env_connect(src_cls, dest_key, flush):
+    def make(it):
+        from pyvc.interp import PyObjV
+        from pyvc import source
+
+        mm = source.load("model")
+        pop = PyObjV("Population", mm, {"name": "pop", "links": [], "link_lookup": {}})
+        group_par = PyObjV("Parameter", mm, {"id": ("pop", "dur"), "links": []})
+        other_par = PyObjV("Parameter", mm, {"id": ("pop", "x"), "links": []})
+        dcls, dextra, _ = _DESTS[dest_key]
+        dfields = {"id": ("pop", "d"), "pop": pop, "outlinks": [], "inlinks": []}
+        for k, v in dextra.items():
+            dfields[k] = PyObjV("Parameter", mm, {"id": ("pop2", v), "links": []}) if k == "parameter" else v   # another instance of the group's parameter
+        dest = PyObjV(dcls, mm, dfields)
+        sfields = {"id": ("pop", "a"), "pop": pop, "outlinks": [], "inlinks": []}
+        if src_cls == "TimedCompartment":
+            sfields.update({"parameter": group_par, "flush_link": None})
+        else:
+            sfields.update({"duration_group": "dur" if src_cls == "JunctionCompartment#in_group" else None})
+        self = PyObjV(src_cls.split("#")[0], mm, sfields)
+        return {"self": self, "dest": dest, "par": group_par if flush else other_par, "POP": pop, "GROUP_PAR": group_par}
+
+    return make
+
+
+for _dk, (_dcls, _dx, _same) in _DESTS.items():
+    for _flush in (False, True):
+        _raises = {"AssertionError": "True"} if (_flush and _same) else {}
+        CONTRACTS["model:TimedCompartment.connect#to_%s%s" % (_dk, "_flush" if _flush else "")] = dict(
+            schema=schema, make_env=_env_connect("TimedCompartment", _dk, _flush), class_module="model", concrete_new=["Link", "TimedLink"],
+            raises=_raises, raises_props=["C05"],
+            ensures=[] if _raises else [
+                ("C05.elapsed_time_is_kept_exactly_for_moves_inside_the_duration_group", "len(self.outlinks) == 1 and type(self.outlinks[0]).__name__ == %r" % ("TimedLink" if _same else "Link")),
+                ("C05+C01.the_link_joins_this_compartment_and_the_destination", "self.outlinks[0].source is self and self.outlinks[0].dest is dest and len(dest.inlinks) == 1 and dest.inlinks[0] is self.outlinks[0] and len(POP.links) == 1"),
+                ("C05.the_timed_parameter_own_link_is_the_flush_link_and_is_detached" if _flush else "C05.an_ordinary_link_stays_attached_to_its_parameter",
+                 "self.flush_link is self.outlinks[0] and self.outlinks[0].parameter is None and len(GROUP_PAR.links) == 0" if _flush else
+                 "self.flush_link is None and self.outlinks[0].parameter is par and len(par.links) == 1 and par.links[0] is self.outlinks[0]"),
+            ],
+            defined_props=["C05", "C01"])
+    for _src, _ingroup in (("JunctionCompartment#in_group", True), ("JunctionCompartment#no_group", False)):
+        # a junction of a duration group refuses a timed / junction destination of another group (ModelError) and otherwise keeps rows
+        _mismatch = _ingroup and _dk in ("timed_other_group", "junction_other_group", "junction_no_group")
+        CONTRACTS["model:JunctionCompartment.connect#%s_to_%s" % (_src.split("#")[1], _dk)] = dict(
+            schema=schema, make_env=_env_connect(_src, _dk, False), class_module="model", concrete_new=["Link", "TimedLink"],
+            raises=({"ModelError": "True"} if _mismatch else {}), raises_props=["C05"],
+            ensures=[] if _mismatch else [
+                ("C05.links_out_of_a_junction_keep_rows_exactly_when_it_belongs_to_a_duration_group", "len(self.outlinks) == 1 and type(self.outlinks[0]).__name__ == %r" % ("TimedLink" if _ingroup else "Link")),
+                ("C05+C01.the_link_joins_this_junction_and_the_destination", "self.outlinks[0].source is self and self.outlinks[0].dest is dest and len(dest.inlinks) == 1 and self.outlinks[0].parameter is par"),
+            ],
+            defined_props=["C05", "C01"])
+
+for _dk in ("timed_same_group", "junction_same_group", "plain", "sink"):
+    CONTRACTS["model:Compartment.connect#to_%s" % _dk] = dict(
+        schema=schema, make_env=_env_connect("Compartment", _dk, False), class_module="model", concrete_new=["Link", "TimedLink"], self_classes=["Compartment"],
+        ensures=[("C05.entering_a_duration_group_from_outside_restarts_the_elapsed_time", "len(self.outlinks) == 1 and type(self.outlinks[0]).__name__ == 'Link'"),
+                 ("C05+C01.the_link_joins_this_compartment_and_the_destination", "self.outlinks[0].source is self and self.outlinks[0].dest is dest and len(dest.inlinks) == 1 and self.outlinks[0].parameter is par")],
+        defined_props=["C05", "C01"])
+CONTRACTS["model:SinkCompartment.connect"] = dict(
+    schema=schema, make_env=_env_connect("SinkCompartment", "plain", False), class_module="model", concrete_new=["Link", "TimedLink"],
+    raises={"ModelError": "True"}, raises_props=["C01"], ensures=[], defined_props=["C01"])
+
+
+def _replay_connect(src_cls, dest_key, flush):
+    def replay(model, contract):
+        """replay on REAL objects: a bare Population, real compartments of the stated classes and a real parameter; the real connect() runs"""
+        import atomica.model as am
+
+        pop = object.__new__(am.Population)
+        pop.name, pop.links, pop.link_lookup, pop.par_lookup = "pop", [], {}, {}
+        pop2 = object.__new__(am.Population)
+        pop2.name = "pop2"
+        group_par, other_par = am.Parameter(pop, "dur"), am.Parameter(pop, "x")
+        dcls, dextra, same = _DESTS[dest_key]
+        if dcls == "TimedCompartment":
+            dest = am.TimedCompartment(pop, "d", am.Parameter(pop2, dextra["parameter"]))
+        elif dcls == "JunctionCompartment":
+            dest = am.JunctionCompartment(pop, "d", duration_group=dextra["duration_group"])
+        else:
+            dest = getattr(am, dcls)(pop, "d")
+        base = src_cls.split("#")[0]
+        if base == "TimedCompartment":
+            src = am.TimedCompartment(pop, "a", group_par)
+        elif base == "JunctionCompartment":
+            src = am.JunctionCompartment(pop, "a", duration_group="dur" if src_cls.endswith("in_group") else None)
+        else:
+            src = getattr(am, base)(pop, "a")
+        par = group_par if flush else other_par
+        expected = contract.get("raises") or {}
+        pre = dict(source=src_cls, destination=dest_key, connecting_the_timed_parameter=flush)
+        try:
+            src.connect(dest, par)
+        except Exception as e:  # noqa
+            ok = type(e).__name__ in expected
+            return dict(verdict="holds" if ok else "violates", raised=type(e).__name__, detail="connect raised %s%s" % (type(e).__name__, "" if ok else " (not allowed here)"), prestate=pre)
+        if expected:
+            return dict(verdict="violates", detail="connect returned although %s is required here" % "/".join(expected), prestate=pre)
+        want = "TimedLink" if ((base == "TimedCompartment" and same) or src_cls.endswith("in_group")) else "Link"
+        bad = []
+        if len(src.outlinks) != 1 or type(src.outlinks[0]).__name__ != want:
+            bad.append("the new link is a %s, the duration groups of its ends ask for a %s" % ("/".join(type(l).__name__ for l in src.outlinks), want))
+        elif dest.inlinks != [src.outlinks[0]] or src.outlinks[0].source is not src or src.outlinks[0].dest is not dest:
+            bad.append("the link does not join the two compartments")
+        elif flush and not (src.flush_link is src.outlinks[0] and src.outlinks[0].parameter is None and group_par.links == []):
+            bad.append("the timed parameter's link is not installed as the detached flush link")
+        elif not flush and not (src.outlinks[0].parameter is par and par.links == [src.outlinks[0]]):
+            bad.append("the link is not attached to its parameter")
+        return dict(verdict="violates" if bad else "holds", detail="; ".join(bad) or "link class and wiring as the duration groups ask", prestate=pre)
+
+    return replay
+
+
+for _k, _c in CONTRACTS.items():
+    if ".connect" in _k and "make_env" in _c:
+        _cl = _c["make_env"].__closure__
+        _vals = {n: c.cell_contents for n, c in zip(_c["make_env"].__code__.co_freevars, _cl)}
+        _c["replay_hook"] = _replay_connect(_vals["src_cls"], _vals["dest_key"], _vals["flush"])
+
+
+# ---- the link passes of Population.build (C01, C03): every framework transition (source, destination) of a parameter is connected
+# once, from the source compartment to the destination compartment of THIS population, with that parameter; the residual
+# transitions ('>') are connected without a parameter and skipped when a compartment is not in this population.
+def _env_links(it):
+    from pyvc.interp import PyObjV
+    from pyvc.core import Opaque
+    from pyvc import source
+
+    mm = source.load("model")
+    pop_fields = {"name": "pop", "type": "default", "links": [], "link_lookup": {}}
+    self = PyObjV("Population", mm, pop_fields)
+    comps = {n: PyObjV("Compartment", mm, {"id": ("pop", n), "pop": self, "outlinks": [], "inlinks": []}) for n in ("s", "d", "e")}
+    pop_fields["comps"] = list(comps.values())
+    pop_fields["comp_lookup"] = dict(comps)
+    par = PyObjV("Parameter", mm, {"id": ("pop", "p"), "links": []})
+    fw = PyObjV("ProjectFramework", source.load("framework"), {"transitions": {"p": [("s", "d"), ("s", "e")]}})
+    return {"self": self, "par": par, "framework": fw, "S": comps["s"], "D": comps["d"], "E": comps["e"]}
+
+
+CONTRACTS["model:Population.build#links_of_one_parameter"] = dict(
+    schema=schema, fragment={"iter": "self.pars", "body_contains": "framework.transitions[par.name]"}, make_env=_env_links, class_module="model", concrete_new=["Link", "TimedLink"],
+    ensures=[
+        ("C01+C03.every_transition_of_the_parameter_becomes_one_link", "len(par.links) == 2 and len(self.links) == 2 and len(S.outlinks) == 2 and len(D.inlinks) == 1 and len(E.inlinks) == 1"),
+        ("C01+C03.each_link_runs_from_the_stated_source_to_the_stated_destination", "par.links[0].source is S and par.links[0].dest is D and par.links[1].source is S and par.links[1].dest is E and D.inlinks[0] is par.links[0] and E.inlinks[0] is par.links[1]"),
+        ("C01+C03.the_links_are_driven_by_that_parameter", "par.links[0].parameter is par and par.links[1].parameter is par"),
+        ("C01.nothing_flows_backwards", "len(S.inlinks) == 0 and len(D.outlinks) == 0 and len(E.outlinks) == 0"),
+    ],
+    defined_props=["C01", "C03"])
